@@ -346,6 +346,11 @@ func regexpNext(sb *strings.Builder, sl *stringLexer, mode Mode) error {
 				if !closing && start > end && deferredErr == nil {
 					deferredErr = &SyntaxError{msg: fmt.Sprintf("invalid range: %c-%c", start, end)}
 				}
+				if sl.peekNext() == '[' {
+					// The range ends at a literal '[', which cannot begin a class like [:alpha:].
+					sl.next()
+					bsb.WriteString(`\[`)
+				}
 			case ']':
 				if hasSlash {
 					// Bracket expressions can't match slashes in filename
